@@ -30,6 +30,13 @@
 //	              state delta. Oracles: (L-A) listed field differs and the late vote is accepted =>
 //	              it is not recorded on the observed record of X; (L-B) if it was recorded there,
 //	              the block must be indistinguishable from one with a late vote for X itself.
+//	genesis     - (genesis.go) the other way votes get into the store: for a fixed number of pairs per
+//	              field the state "60 % voted X, 10 % voted X', neither observed" (and once per field
+//	              the late-vote state) goes through the module's ExportGenesis -> JSON -> emptied
+//	              skyway store -> InitGenesis. Observed: the decoded attestation records before /
+//	              after, and the blocks that follow (last honest vote, tally) against the same blocks
+//	              without the export/import. Oracle (G): the import records no voter on a claim that
+//	              differs from the one the voter was recorded on before the export.
 package c11
 
 import (
@@ -59,6 +66,7 @@ type params struct {
 	Type  string `json:"type,omitempty"` // chain: claim type URL
 	Base  int    `json:"base,omitempty"` // chain: scenario index
 	Late  int    `json:"late,omitempty"` // chain: late votes (after the nonce was observed) per field that must have been ACCEPTED
+	Gen   int    `json:"gen,omitempty"`  // chain: genesis export/import round trips per field with two competing attestations (byzantine vote ACCEPTED)
 }
 
 func lateSig(typeURL, field string) string {
@@ -408,6 +416,13 @@ func observed(o runOut) bool {
 	return false
 }
 
+// a buffered violation (reported most telling oracle first)
+type pending struct {
+	rank     int
+	sig, msg string
+	wit      any
+}
+
 func runChain(c fw.Case, p params, rec *fw.Recorder) {
 	r := c.Rand()
 	w, err := newWorld()
@@ -488,11 +503,6 @@ func runChain(c fw.Case, p params, rec *fw.Recorder) {
 
 	// violations are buffered and reported most telling oracle first (the recorder keeps only the
 	// first three witnesses per signature and case)
-	type pending struct {
-		rank     int
-		sig, msg string
-		wit      any
-	}
 	var pend []pending
 	defer func() {
 		sort.SliceStable(pend, func(i, j int) bool { return pend[i].rank < pend[j].rank })
@@ -536,6 +546,7 @@ func runChain(c fw.Case, p params, rec *fw.Recorder) {
 		_, isListed := listed[fi.Proto]
 		seen := map[string]bool{}
 		lateAccepted, lateTried := 0, 0
+		genAccepted, genTried, genLateDone, genLateTried := 0, 0, 0, 0
 		for _, v := range valuesFor(X, fi, pool, r, p.Vals) {
 			X2, ok := mutate(X, fi, v)
 			if !ok {
@@ -698,6 +709,26 @@ func runChain(c fw.Case, p params, rec *fw.Recorder) {
 					}
 				}
 			}
+			// (G) the same pair across a genesis export / import of the skyway state. Fixed budget per
+			// field: until p.Gen round trips with an accepted byzantine vote, at most 3*p.Gen tried.
+			if p.Gen > 0 && genAccepted < p.Gen && genTried < 3*p.Gen {
+				genTried++
+				rec.Op(map[string]any{"op": "genesis-competing", "field": fi.Proto, "x_prime_value": fieldString(X2, fi)})
+				done, v := w.judgeGenCompeting(rec, p, X, X2, fi, isListed, caseOnly)
+				if done {
+					genAccepted++
+				}
+				pend = append(pend, v...)
+			}
+			if lw != nil && p.Gen > 0 && genLateDone < 1 && genLateTried < 3*p.Gen {
+				genLateTried++
+				rec.Op(map[string]any{"op": "genesis-after-observation", "field": fi.Proto, "x_prime_value": fieldString(X2, fi)})
+				done, v := w.judgeGenAfterObservation(rec, p, lw, X, X2, fi, isListed, caseOnly)
+				if done {
+					genLateDone++
+				}
+				pend = append(pend, v...)
+			}
 		}
 	}
 	w.abciCrossCheck(X, H, rec)
@@ -805,10 +836,10 @@ func run(c fw.Case, tier string, rec *fw.Recorder) {
 func cases(tier string, seed int64) []fw.Case {
 	var cs []fw.Case
 	nPure, bases, vals := 4, 12, 40
-	scen, cvals, late := 4, 36, 6
+	scen, cvals, late, gen := 4, 36, 6, 3
 	if tier == "thorough" {
 		nPure, bases, vals = 16, 40, 120
-		scen, cvals, late = 12, 90, 20
+		scen, cvals, late, gen = 12, 90, 20, 8
 	}
 	// chain cases first: their witnesses (real executions) are the ones kept as replay files
 	urls, _ := claimTypes()
@@ -824,7 +855,7 @@ func cases(tier string, seed int64) []fw.Case {
 			n = scen * 3 / 2 // three
 		}
 		for b := 0; b < n; b++ {
-			cs = append(cs, fw.MkCase(fmt.Sprintf("chain-%s-%02d", shortName(u), b), seed*7000003+int64(len(cs)), params{Mode: "chain", Type: u, Base: b, Vals: cvals, Late: late}))
+			cs = append(cs, fw.MkCase(fmt.Sprintf("chain-%s-%02d", shortName(u), b), seed*7000003+int64(len(cs)), params{Mode: "chain", Type: u, Base: b, Vals: cvals, Late: late, Gen: gen}))
 		}
 	}
 	for i := 0; i < nPure; i++ {
@@ -842,7 +873,8 @@ func init() {
 			"pure part: seeded random base claims x every field x boundary/hostile/random values (uint64, math.Int, strings incl. case variants, separators, world addresses); a pair is (base, single-field mutant surviving the wire encoding); oracle on real ClaimHash/GetAttestationKey. " +
 			"chain part: per claim type several scenario bases (different handler paths, both chains) on the real app; per pair three fork executions (honest-only X, honest-only X', byzantine-first X' then honest X) through the real msg server, Attest, end-block tally and attestation handler; compared: acceptance, attestation store keys, end-block events, delta of all KV stores. " +
 			"late votes: the first Late pairs per field (until Late late votes were accepted, at most 3*Late tried) are also run with the 10 % validator voting X' in the block AFTER the honest votes for X were observed; compared: attestation store keys and voter list of the observed record, outcome against a late vote for X itself. " +
-			"distinct_nontrivial = distinct (type, field, base claim, mutant value) pairs whose field value really differs (late-vote pairs counted separately); evaluations = pairs judged by an oracle",
+			"genesis round trips: the first Gen pairs per field (until Gen round trips with an accepted X' vote, at most 3*Gen tried) are also run as: 60 % vote X, the 10 % validator votes X', end-block (nothing observable), module ExportGenesis -> JSON -> emptied skyway store -> module InitGenesis, then the remaining 30 % validator votes X and two end-blocks, against the same blocks without export/import; plus one round trip per field of the late-vote state (X observed, X' voted late); compared: decoded attestation records (claim, voter list) before export / after import, outcome against the control. " +
+			"distinct_nontrivial = distinct (type, field, base claim, mutant value) pairs whose field value really differs (late-vote and genesis pairs counted separately); evaluations = pairs judged by an oracle",
 		Assumptions: []string{
 			"voter identity = orchestrator + metadata (excluded by the property's quantifier); all other fields are mutated",
 			"'nonce' of the statement = skyway_nonce (the nonce the tally and the key use); event_nonce is not on the list and is judged by the differential oracle only",
@@ -851,12 +883,14 @@ func init() {
 			"single-field differences only, as the property quantifies; two-field separator shifts are probed and counted, not judged",
 			"masked from the state comparison: attestation records (claim body + voter list) and the byzantine voter's own last-nonce entry",
 			"byzantine voter holds 10 % of the power, honest voters 90 %; the byzantine vote arrives first (the order in which its body is the one stored), or one block after the honest votes were observed (late vote of a lagging validator)",
+			"genesis round trip: only the skyway module's state is exported and re-imported (into an emptied skyway store of the same fork); all other modules keep their state, i.e. their own export/import is taken to be the identity",
+			"a genesis import pools votes iff it records a voter on a claim (type + all quantified fields) the voter was not recorded on before the export; records that merely disappear (e.g. claims of a superseded bridge deployment, which the export leaves out) are counted, not judged",
 			"a vote recorded on the observed attestation of a claim that differs in a listed field counts as pooled even though the tally is over (the statement's first sentence; the voter list of the observed record is what the chain reports as the votes for that event)",
 		},
 		Exhaustive:  func(string) bool { return false },
 		Cases:       cases,
 		Run:         run,
-		MinCounters: []string{"pure_types", "pure_listed_key_differs", "chain_worlds", "key_model_checked", "abci_crosscheck_ok", "chain_xprime_vote_accepted", "chain_late_vote_accepted", "chain_late_identical_vote_accepted", "chain_base_applied/MsgSendToPalomaClaim", "chain_base_applied/MsgBatchSendToRemoteClaim", "chain_base_applied/MsgLightNodeSaleClaim"},
+		MinCounters: []string{"pure_types", "pure_listed_key_differs", "chain_worlds", "key_model_checked", "abci_crosscheck_ok", "chain_xprime_vote_accepted", "chain_late_vote_accepted", "chain_late_identical_vote_accepted", "chain_genesis_roundtrips", "chain_genesis_competitors_kept_apart", "chain_genesis_roundtrips_after_observation", "chain_base_applied/MsgSendToPalomaClaim", "chain_base_applied/MsgBatchSendToRemoteClaim", "chain_base_applied/MsgLightNodeSaleClaim"},
 		TimeoutS:    1500,
 	})
 }
